@@ -3,8 +3,9 @@
    script whose headers are the ones the complete file declares.  Shared by MC_Prefix and MC_Corrupt. *)
 EXTENDS MCFile
 
-\* k in 1..12: encoding ((k-1) % 4) + 1 of variant (k-1) \div 4  (0 plain, 1 extended section numbering,
-\* 2 PT_DYNAMIC designating only the first entry of .dynamic)
+\* k in 1..16: encoding ((k-1) % 4) + 1 of variant (k-1) \div 4  (0 plain, 1 extended section numbering,
+\* 2 PT_DYNAMIC designating only the first entry of .dynamic, 3 a core file: e_type = ET_CORE - a field no
+\* property mentions, so no answer may depend on it)
 EncOf(k) == LET e == ((k - 1) % 4) + 1 IN CASE e = 1 -> <<32, TRUE>> [] e = 2 -> <<32, FALSE>> [] e = 3 -> <<64, TRUE>> [] e = 4 -> <<64, FALSE>>
 VariantOf(k) == (k - 1) \div 4
 
@@ -26,14 +27,16 @@ Template(class, little, variant) ==
                    Sec(<<46, 116>>, 1, <<144, 145, 146, 147, 148>>) >>                      \* ".t"
         segs == << [type |-> 2, flags |-> 6, sec |-> 4, off |-> 0, filesz |-> 0, memsz |-> 0, align |-> 8,
                     part |-> IF variant = 2 THEN dynsz ELSE 0],
-                   [type |-> 4, flags |-> 4, sec |-> 5, off |-> 0, filesz |-> 0, memsz |-> 0, align |-> 4] >>
-    IN BuildObj(class, little, secs, segs, [DefaultOpts EXCEPT !.shstrndx = 1, !.shnum_ext = (variant = 1)])
+                   [type |-> 4, flags |-> 4, sec |-> 5, off |-> 0, filesz |-> 0, memsz |-> 0, align |-> 4],
+                   [type |-> 1, flags |-> 5, sec |-> 6, off |-> 0, filesz |-> 0, memsz |-> 16, align |-> 16] >>       \* PT_LOAD over ".t"
+    IN BuildObj(class, little, secs, segs, [DefaultOpts EXCEPT !.shstrndx = 1, !.shnum_ext = (variant = 1),
+                                                                !.etype = IF variant = 3 THEN 4 ELSE 3])
 
 \* constant-level tables (TLC evaluates them once): the complete files, their handles, the query script with
 \* headers as the complete file declares them, and the complete file's answers
-FullF == [k \in 1..12 |-> Template(EncOf(k)[1], EncOf(k)[2], VariantOf(k))]
-EbF == [k \in 1..12 |-> Open(F(FullF[k]), "Any")]
-QsF == [k \in 1..12 |->
+FullF == [k \in 1..16 |-> Template(EncOf(k)[1], EncOf(k)[2], VariantOf(k))]
+EbF == [k \in 1..16 |-> Open(F(FullF[k]), "Any")]
+QsF == [k \in 1..16 |->
          LET ff == F(FullF[k]) ebF == EbF[k] IN
          [i \in 1..6 |-> [name |-> "section_data", shdr |-> ShdrAt(ff, ebF, i)]] \o
          << [name |-> "section_data_as_strtab", shdr |-> ShdrAt(ff, ebF, 2)],
@@ -48,5 +51,6 @@ QsF == [k \in 1..12 |->
             [name |-> "shdr_by_name", qname |-> <<46, 122>>],
             [name |-> "symbol_table"], [name |-> "dynamic_symbol_table"], [name |-> "dynamic"],
             [name |-> "symbol_version_table", qs |-> <<>>],
-            [name |-> "find_common_data", names |-> <<>>] >>]
+            [name |-> "find_common_data", names |-> <<>>],
+            [name |-> "segment_data", phdr |-> PhdrAt(ff, ebF, 2)] >>]
 =============================================================================
